@@ -68,6 +68,7 @@ class VecSpec:
     uses_ex: bool = False                                  # the exponential is needed (a logarithm written out as a real)
     lsum: str = "lsum"                                    # name of the sum primitive in the target namespace
     vec_calls: Dict[str, str] = field(default_factory=dict)   # python callee of two vectors -> Lean binary operator (elementwise)
+    real_fns: Dict[str, str] = field(default_factory=dict)    # np.sqrt / np.abs -> name of an uninterpreted K → K parameter (extra_binders)
 
 
 class Unbound(Exception):
@@ -186,13 +187,30 @@ class _V:
                 if t != VLOG:
                     self.fail(e, "np.max of something that is not a log-weight vector")
                 return LOG, f"(lmax {v})"
-            if fn == "np.exp" and len(e.args) == 1 and not e.keywords:
+            if fn == "np.exp" and len(e.args) == 1 and all(k.arg == "dtype" and ast.unparse(k.value) in ("np.longdouble", "float")
+                                                           for k in e.keywords):
                 t, v = self.expr(e.args[0], env)
                 if t == LOG:
                     return LIN, v
                 if t == VLOG:
                     return VLIN, v
                 self.fail(e, "np.exp of something that is not log-domain")
+            # real-valued (linear-domain) arithmetic on exponentiated quantities: sum, square root, absolute value, float()
+            if fn == "np.sum" and len(e.args) == 1 and not e.keywords:
+                t, v = self.expr(e.args[0], env)
+                if t == VLIN:
+                    return LIN, f"({sp.lsum} {v})"
+                self.fail(e, "np.sum of something that is not a vector of reals")
+            if fn in ("np.sqrt", "np.abs") and len(e.args) == 1 and not e.keywords and fn in sp.real_fns:
+                t, v = self.expr(e.args[0], env)
+                if t == LIN:
+                    return LIN, f"({sp.real_fns[fn]} {v})"
+                self.fail(e, f"{fn} of something that is not a real scalar")
+            if fn == "float" and len(e.args) == 1 and not e.keywords:
+                t, v = self.expr(e.args[0], env)
+                if t == LIN:
+                    return LIN, v
+                self.fail(e, "float() of something that is not a real scalar")
             if text == f"np.log(np.random.rand({sp.nested}.size))":
                 if not sp.uses_uniforms:
                     self.fail(e, "uniform draws in a function declared without them")
@@ -264,6 +282,30 @@ class _V:
                 return LOG, f"(1 / {v})"
             self.fail(e, "negation of something that is not a log-domain scalar")
         if isinstance(e, ast.BinOp):
+            if isinstance(e.op, ast.Pow) and isinstance(e.right, ast.Constant) and e.right.value == 2:
+                t, v = self.expr(e.left, env)
+                if t == VLIN:
+                    return VLIN, f"({v}.map (fun x => x * x))"
+                if t == LIN:
+                    return LIN, f"({v} * {v})"
+                self.fail(e, "square of something that is not real-valued")
+            if isinstance(e.op, (ast.Sub, ast.Mult, ast.Div)):
+                def _try(x):
+                    try:
+                        return self.expr(x, env)
+                    except TranslationError:
+                        return None, None
+                (tl, l), (tr, r) = _try(e.left), _try(e.right)
+                if isinstance(e.op, ast.Sub) and tl == VLIN and tr == LIN:
+                    return VLIN, f"({l}.map (fun x => x - {r}))"
+                if isinstance(e.op, ast.Sub) and tl == NAT and isinstance(e.right, ast.Constant) and isinstance(e.right.value, int):
+                    return NAT, f"({l} - {e.right.value})"
+                if isinstance(e.op, ast.Mult) and tl == NAT and tr == NAT:
+                    return NAT, f"({l} * {r})"
+                if isinstance(e.op, ast.Div) and tl == LIN and tr == NAT:
+                    return LIN, f"({l} / (({r} : Nat) : K))"
+                if isinstance(e.op, ast.Div) and tl == LIN and tr == LIN:
+                    return LIN, f"({l} / {r})"
             if isinstance(e.op, ast.Mult) and isinstance(e.left, ast.Constant) and e.left.value == 2:
                 t, v = self.expr(e.right, env)
                 if t == VLOG:
